@@ -369,6 +369,15 @@ def hand_format(name: str, rows: list, rng):
                                              dtype=r["job_due_time"].dtype)
             out.append(r)
         return out, "hand:smtwtp_integer"
+    if name == "atsp":
+        # cost matrices in real units (minutes, kilometres): the matrix is the instance, whatever range the
+        # environment's own generator draws from.  Scaling keeps the triangle inequality.
+        out = []
+        for r in rows:
+            r = {k: v.clone() for k, v in r.items()}
+            r["cost_matrix"] = r["cost_matrix"] * rng.choice([0.25, 1.0, 3.0, 10.0])
+            out.append(r)
+        return out, "hand:atsp_units"
     return rows, "generator"
 
 
